@@ -280,7 +280,10 @@ Section EvalFacts.
       + intros k _. unfold key_kv. destruct (K t); simpl; [|constructor].
         destruct (String.eqb k "__key"); constructor. constructor.
       + unfold key_kv. destruct (K t); reflexivity.
-    - constructor.
+    - unfold evs. cbn [flat_map]. rewrite !app_nil_r. constructor.
+      + intros k _. unfold key_kv. destruct (K t); simpl; [|constructor].
+        destruct (String.eqb k "__key"); constructor. constructor.
+      + unfold key_kv. destruct (K t); reflexivity.
     - constructor. apply scalars_ok_list in Hs. induction H as [|x t Hx _ IH]; [constructor|].
       inversion Hs; subst. simpl. constructor; auto.
     - unfold leaf_obj. simpl. constructor; [intros; constructor | reflexivity].
@@ -327,8 +330,7 @@ Section Statements.
   Definition subs_ok (rty : rtype) (subs : list node) : Prop :=
     nodup_str (map n_alias subs) = true /\ forallb (node_ok g rty) subs = true /\
     match rty with
-    | RUnion u => exists ms, union_members g u = Some ms /\
-                             forallb (fun m => existsb (fun x => String.eqb (n_alias x) m) subs) ms = true
+    | RUnion u => exists ms, union_members g u = Some ms /\ subs <> []
     | _ => True
     end.
 
@@ -491,8 +493,9 @@ Section Core.
         assert (Hsub : subs_ok g rty subs).
         { destruct rty as [|o|u]; [contradiction| |].
           - apply andb_prop in Hn3 as [Hx Hy]. apply andb_prop in Hx as [_ Hx]. repeat split; auto.
-          - apply andb_prop in Hn3 as [Hx Hz]. apply andb_prop in Hx as [Hx Hy]. apply andb_prop in Hx as [_ Hx].
-            repeat split; auto. destruct (union_members g u) as [ms|]; [|discriminate]. exists ms. auto. }
+          - apply andb_prop in Hn3 as [Hx Hz]. apply andb_prop in Hx as [Hx Hne]. apply andb_prop in Hx as [Hx Hy]. apply andb_prop in Hx as [_ Hx].
+            repeat split; auto. destruct (union_members g u) as [ms|]; [|discriminate]. exists ms. split; [reflexivity|].
+            intros ->. discriminate. }
         assert (Hnq : rty <> RObj "Query").
         { intros ->. eapply (ok0_nothing_returns_query g Hok); eauto. }
         assert (Hnm : forall u ms, rty = RUnion u -> union_members g u = Some ms -> ~ In "Query" ms).
@@ -1203,15 +1206,53 @@ Section Core.
   Lemma simv_str_inv : forall v s, simv v (JStr s) -> v = JStr s.
   Proof. intros v s H. inversion H; reflexivity. Qed.
 
+  Lemma simv_scalar_obj : forall L, Forall (fun kv : string * json => scalar_json (snd kv)) L ->
+    lookup federation_field L = None -> simv (JObj L) (JObj L).
+  Proof.
+    intros L Hs Hn. constructor; [|exact Hn]. intros k _. destruct (lookup k L) as [v|] eqn:El; constructor.
+    apply simv_scalar_refl. apply lookup_in in El. rewrite Forall_forall in Hs. apply (Hs _ El).
+  Qed.
+
+  (** an object of a member for which the selection has no fragment: the union-level __typename alone *)
+  Lemma pick_gen_uncovered : forall rest t i,
+    Forall (fun n => is_field n = false) rest -> (forall n, In n rest -> n_alias n <> t) ->
+    pick_gen K EV (tn_sel :: rest) t i (tn_sel :: rest) = JObj (key_kv K t i ++ [("__typename", JStr t)]).
+  Proof.
+    intros rest t i Hr Hne.
+    assert (Hsk : pick_gen K EV (tn_sel :: rest) t i ((tn_sel :: rest) ++ []) = pick_gen K EV (tn_sel :: rest) t i []).
+    { apply pick_gen_skip. intros n [<-|Hn]; [exact I|]. rewrite Forall_forall in Hr. pose proof (Hr n Hn) as Hf.
+      destruct n as [|on dirs body]; [discriminate|]. simpl. apply (Hne _ Hn). }
+    rewrite app_nil_r in Hsk. rewrite Hsk. cbn [pick_gen]. rewrite (pushed_eval [] t i rest Hr). cbn [map existsb].
+    unfold evs. cbn [flat_map]. rewrite app_nil_r. reflexivity.
+  Qed.
+
   Theorem U_step : forall fuel, S_stmt w g pick fuel -> U_stmt w g pick (S fuel).
   Proof.
-    intros fuel HS u subs svc cs cafters Hpl [Hnd [Hok' [ms [Hu Hcov]]]] Hnoq t i [ms' [Hu' Hin]].
+    intros fuel HS u subs svc cs cafters Hpl [Hnd [Hok' [ms [Hu Hsne]]]] Hnoq t i [ms' [Hu' Hin]].
     rewrite Hu in Hu'. inversion Hu'; subst ms'. clear Hu'.
     pose proof (all_frags_ok _ _ Hok') as Hfr.
     destruct (plan_union_inv fuel u subs svc cs cafters Hpl Hfr) as [planned [Hp [-> ->]]].
     pose proof (mapo_Forall2 _ _ _ Hp) as Fp.
+    destruct (existsb (fun x => String.eqb (n_alias x) t) subs) eqn:Hcov.
+    2:{ (* no fragment for member t: both sides render the union-level __typename alone; no sub-plan touches it *)
+      assert (Hne : forall n, In n subs -> n_alias n <> t).
+      { intros n Hn He. assert (existsb (fun x => String.eqb (n_alias x) t) subs = true); [|congruence].
+        apply existsb_exists. exists n. split; [exact Hn | apply String.eqb_eq; exact He]. }
+      destruct (frag_plan_shape _ _ _ _ Fp) as [Fr Sh].
+      rewrite (pick_gen_uncovered (map fst planned) t i Fr).
+      2:{ intros n Hn. destruct (Sh n Hn) as [m [cs' [Hm ->]]]. simpl. apply Hne; exact Hm. }
+      rewrite (pick_gen_uncovered (map annot subs) t i).
+      2:{ apply Forall_forall. intros n Hn. apply in_map_iff in Hn as [m [<- Hm]]. rewrite annot_is_field.
+          unfold all_frags in Hfr. rewrite Forall_forall in Hfr. apply Hfr; exact Hm. }
+      2:{ intros n Hn. apply in_map_iff in Hn as [m [<- Hm]]. rewrite annot_alias. apply Hne; exact Hm. }
+      assert (Hk0 : lookup "__typename" (key_kv K t i) = None) by (unfold key_kv; destruct (K t); reflexivity).
+      rewrite (RA_other_members fuel svc t subs planned _ Fp Hne).
+      2:{ rewrite lookup_app, Hk0. reflexivity. }
+      eexists. split; [reflexivity|]. apply simv_scalar_obj.
+      - apply Forall_app. split; [unfold key_kv; destruct (K t); constructor; [exact I | constructor] | constructor; [exact I | constructor]].
+      - rewrite lookup_app. unfold key_kv. destruct (K t); reflexivity. }
     (* the fragment of member t *)
-    eapply forallb_forall in Hcov; [|exact Hin]. apply existsb_exists in Hcov as [x [Hx Hxt]]. apply String.eqb_eq in Hxt.
+    apply existsb_exists in Hcov as [x [Hx Hxt]]. apply String.eqb_eq in Hxt.
     pose proof Hx as Hx0. unfold all_frags in Hfr. rewrite Forall_forall in Hfr. pose proof (Hfr x Hx) as Hxf.
     destruct x as [|on dirs body]; [discriminate|]. simpl in Hxt. subst on.
     apply in_split in Hx as [l1 [l2 Hsplit]]. subst subs.
@@ -1377,10 +1418,10 @@ Section Core.
       destruct rty as [|o|u]; simpl in Hv; try contradiction; [destruct fuel; discriminate|].
       destruct Hv as [ms [Hu Hin]].
       assert (Hhf : has_frag subs = true).
-      { destruct Hsub as [_ [Hok' [ms' [Hu' Hcov]]]]. rewrite Hu in Hu'. inversion Hu'; subst ms'.
-        eapply forallb_forall in Hcov; [|exact Hin]. apply existsb_exists in Hcov as [x [Hx _]].
+      { destruct Hsub as [_ [Hok' [ms' [Hu' Hsne]]]].
         pose proof (all_frags_ok _ _ Hok') as Hfr. unfold all_frags in Hfr. rewrite Forall_forall in Hfr.
-        unfold has_frag. apply existsb_exists. exists x. split; [exact Hx | rewrite (Hfr x Hx); reflexivity]. }
+        destruct subs as [|x rest]; [congruence|].
+        unfold has_frag. apply existsb_exists. exists x. split; [left; reflexivity | rewrite (Hfr x (or_introl eq_refl)); reflexivity]. }
       unfold asubs. rewrite Hhf. cbn [render_gen].
       apply (HU u subs svc cs cafters Hpl Hsub (fun ms => Hnqu u ms eq_refl) t i). exists ms. auto.
     - (* a list *)
